@@ -11,7 +11,7 @@
    behaviour of the heap is outside the value model.  The check repeats every conversion 5 times in one process and
    in 3 fresh processes. *)
 From Coq Require Import List Arith Permutation Strings.Byte.
-From IGP Require Import Base.Str Parser.PStr Parser.Combo Model.MapSites Gen.Sites Proofs.OracleProof Parser.Disjoint Tie.C12_tie.
+From IGP Require Import Base.Str Parser.PStr Parser.Combo Model.MapSites Gen.Sites Proofs.OracleProof Parser.Disjoint Proofs.RemoveSeq Tie.C12_tie.
 Import ListNotations.
 
 (* the inventory: every map iteration reachable from the endpoints is one of the analysed sites, and vice versa *)
@@ -64,6 +64,13 @@ Theorem C12_groups_of_a_level_are_apart : forall lp rp fuel expr lm e', detect f
   forall l v w, In v (nth l lm []) -> In w (nth l lm []) -> apart v w.
 Proof. exact detect_groups_apart. Qed.
 Print Assumptions C12_groups_of_a_level_are_apart.
+
+(* the private-property links of a statement are collected by iterating a map as well; the removals they trigger give the
+   same property tree in whatever order the links were found (Proofs/RemoveSeq.v), so even a map with several keys there
+   would not show in the result *)
+Theorem C12_private_removals_any_order : forall xs ys t, NoDup (ids t) -> (forall i, In i xs <-> In i ys) -> bremove_all xs t = bremove_all ys t.
+Proof. exact bremove_order_irrelevant. Qed.
+Print Assumptions C12_private_removals_any_order.
 
 (* the premise cannot be dropped: with two candidates the order shows (what a relaxed condition would cause) *)
 Example C12_order_shows_without_uniqueness :
